@@ -486,6 +486,10 @@ func (l c16Law) queries() []string {
 		return qs
 	case "onlyref": // Param: lhs statement, projection stage, operator, constant, expected canonical JSON
 		return []string{e + " | Only(" + ps[0] + " " + ps[2] + " " + c16lit(ps[3]) + ") | " + ps[1]}
+	case "apiref": // Expr: the whole query; Param: expected canonical JSON, what is compared
+		return []string{e}
+	case "threewayL": // Param: accessor, constant — the constant on the LEFT of the operator
+		return []string{e, e + " | Only(" + ps[1] + " < " + ps[0] + ")", e + " | Only(" + ps[1] + " = " + ps[0] + ")", e + " | Only(" + ps[1] + " > " + ps[0] + ")"}
 	case "shadow": // the first definition of a name wins; DocumentN cannot be redefined
 		return []string{e, "X is " + e + "; X is .Families | Length; X", "X is " + e + "; X is 1; Y is X; Y",
 			"Document1 | .Nodes | Length", "Document1 is .Families | First(1); Document1 | .Nodes | Length"}
@@ -562,7 +566,12 @@ func (l c16Law) verdict(o []c15Obs) (what, observed, expected string) {
 		if line(1) != line(0) {
 			return "the same query on the same document gave two results", line(1), line(0)
 		}
-	case "partition", "threeway":
+	case "apiref":
+		ps := strings.Split(l.Param, c16sep)
+		if o[0].Top != "value" || o[0].JSON != ps[0] {
+			return ps[1], o[0].Top + " " + o[0].JSON, ps[0]
+		}
+	case "partition", "threeway", "threewayL":
 		items, ok := c16items(o[0])
 		if !ok {
 			return
@@ -609,6 +618,9 @@ func (l c16Law) verdict(o []c15Obs) (what, observed, expected string) {
 			what = "Only(p) and Only(not p) do not partition the list in order"
 			if l.Kind == "threeway" {
 				what = "Only(x < c), Only(x = c), Only(x > c) do not partition the list in order"
+			}
+			if l.Kind == "threewayL" {
+				what = "Only(c < x), Only(c = x), Only(c > x) (constant on the left) do not partition the list in order"
 			}
 			return what, strings.Join(lens, " + ") + " of " + strconv.Itoa(len(items)), "an order-preserving split"
 		}
@@ -1056,7 +1068,104 @@ func init() {
 				want := strings.ReplaceAll(sb.String(), "[ ]", "[  ]")
 				addLaw(c16Law{"onlyref", ".Individuals", strings.Join([]string{lhs, lhs, op, cst, want}, c16sep), d})
 				addLaw(c16Law{"threeway", ".Individuals", lhs + c16sep + c16lit(cst), d})
+				// the same with the constant on the left: c op x  (x through a variable, so that a
+				// pipeline can stand on the right of the operator)
+				sb.Reset()
+				sb.WriteString("[ ")
+				for _, ind := range doc.Individuals() {
+					v := []string{ind.Pointer(), ind.Name().GivenName(), ind.Name().Surname()}[k]
+					if c16refCompare(cst, v, op) {
+						sb.WriteString("s" + hexs(v) + " ")
+					}
+				}
+				sb.WriteString("]")
+				wantL := strings.ReplaceAll(sb.String(), "[ ]", "[  ]")
+				baseL := []string{".Individuals", ".Individuals | .Name", ".Individuals | .Name"}[k]
+				accL := []string{".Pointer", ".GivenName", ".Surname"}[k]
+				addLaw(c16Law{"apiref", baseL + " | Only(" + c16lit(cst) + " " + op + " " + accL + ") | " + accL,
+					wantL + c16sep + "Only(c op x) with the constant on the left differs from filtering with the reference comparison", d})
+				addLaw(c16Law{"threewayL", baseL, accL + c16sep + c16lit(cst), d})
 			}
+		}
+		// interface-typed lists (.Nodes, NodesWithTagPath, .AllEvents, .Warnings) and left constants on
+		// the ordinary documents: Only(…) against a filter computed through the Go API
+		ri := r.Fork("iface")
+		for d := 0; d < len(pool) && d < numStart; d++ {
+			doc, err := gedcom.NewDocumentFromString(pool[d].Text)
+			if err != nil {
+				continue
+			}
+			func() {
+				defer func() { recover() }() // an API call that panics on a faulty document: no reference for it
+				op, cst := ri.Pick(c16ops), ri.Pick([]string{"I1", "I2", "F1", "i1", "", "S1", "I3"})
+				var sb strings.Builder
+				n := 0
+				sb.WriteString("[ ")
+				for _, nd := range doc.Nodes() {
+					if c16refCompare(nd.Pointer(), cst, op) {
+						sb.WriteString("{ k" + hexs("p") + " s" + hexs(nd.Pointer()) + " } ")
+					}
+					if nd.Tag().Tag() == "INDI" {
+						n++
+					}
+				}
+				sb.WriteString("]")
+				addLaw(c16Law{"apiref", ".Nodes | Only(.Pointer " + op + " " + c16lit(cst) + ") | {p: .Pointer}",
+					strings.ReplaceAll(sb.String(), "[ ]", "[  ]") + c16sep + "Only(…) over .Nodes (interface-typed list) differs from filtering Document.Nodes() through the Go API", d})
+				addLaw(c16Law{"apiref", ".Nodes | Only(.Tag | .Tag = \"INDI\") | Length", "i" + strconv.Itoa(n) + c16sep + "Only(…) over .Nodes differs from counting through the Go API", d})
+				addLaw(c16Law{"partition", ".Nodes", ".Pointer" + c16sep + c16lit(cst), d})
+				// NodesWithTagPath
+				op2, cst2 := ri.Pick(c16ops), ri.Pick(c15dates)
+				sb.Reset()
+				sb.WriteString("[ ")
+				for _, ind := range doc.Individuals() {
+					for _, nd := range gedcom.NodesWithTagPath(ind, gedcom.TagBirth, gedcom.TagDate) {
+						if c16refCompare(nd.Value(), cst2, op2) {
+							sb.WriteString("{ k" + hexs("v") + " s" + hexs(nd.Value()) + " } ")
+						}
+					}
+				}
+				sb.WriteString("]")
+				addLaw(c16Law{"apiref", ".Individuals | NodesWithTagPath(\"BIRT\", \"DATE\") | Only(.Value " + op2 + " " + c16lit(cst2) + ") | {v: .Value}",
+					strings.ReplaceAll(sb.String(), "[ ]", "[  ]") + c16sep + "Only(…) over NodesWithTagPath(…) differs from filtering through the Go API", d})
+				addLaw(c16Law{"partition", ".Individuals | NodesWithTagPath(\"BIRT\", \"DATE\")", ".Value" + c16sep + c16lit(cst2), d})
+				// AllEvents of each individual
+				sb.Reset()
+				sb.WriteString("[ ")
+				for _, ind := range doc.Individuals() {
+					k := 0
+					for _, ev := range ind.AllEvents() {
+						if ev.Tag().Tag() == "BIRT" {
+							k++
+						}
+					}
+					sb.WriteString("{ k" + hexs("e") + " i" + strconv.Itoa(k) + " } ")
+				}
+				sb.WriteString("]")
+				addLaw(c16Law{"apiref", ".Individuals | {e: .AllEvents | Only(.Tag | .Tag = \"BIRT\") | Length}",
+					strings.ReplaceAll(sb.String(), "[ ]", "[  ]") + c16sep + "Only(…) over .AllEvents differs from counting through the Go API", d})
+				// birth years with the constant on the left
+				cy := ri.Pick([]string{"1900", "1926", "1943", "0", "2000"})
+				opy := ri.Pick([]string{"<", "<=", ">", ">=", "<", "<="})
+				sb.Reset()
+				sb.WriteString("[ ")
+				for _, ind := range doc.Individuals() {
+					b, _ := ind.Birth()
+					if c16refCompare(cy, fmt.Sprintf("%v", b.Years()), opy) {
+						sb.WriteString("s" + hexs(b.String()) + " ")
+					}
+				}
+				sb.WriteString("]")
+				addLaw(c16Law{"apiref", ".Individuals | .Birth | Only(" + cy + " " + opy + " .Years) | .String",
+					strings.ReplaceAll(sb.String(), "[ ]", "[  ]") + c16sep + "Only(c op .Years) with the constant on the left differs from filtering through the Go API", d})
+				addLaw(c16Law{"threewayL", ".Individuals | .Birth", ".Years" + c16sep + cy, d})
+			}()
+			func() {
+				defer func() { recover() }()
+				w := len(doc.Warnings())
+				addLaw(c16Law{"apiref", ".Warnings | Only(1 = 1) | Length", "i" + strconv.Itoa(w) + c16sep + "Only(true) over .Warnings (interface-typed list) does not keep every element", d})
+				addLaw(c16Law{"apiref", ".Warnings | Only(1 = 2) | Length", "i0" + c16sep + "Only(false) over .Warnings keeps elements", d})
+			}()
 		}
 		// 4. reference through the Go API
 		apiStart := len(jobs)
@@ -1104,7 +1213,7 @@ func init() {
 				continue
 			}
 			l := lr.law
-			if shrunk[what] < 2 && l.Kind != "onlyref" && l.Kind != "opref" { // delta-debug the first failures of each kind
+			if shrunk[what] < 2 && l.Kind != "onlyref" && l.Kind != "opref" && l.Kind != "apiref" { // delta-debug the first failures of each kind
 				shrunk[what]++
 				if s := c16shrink(&pool, l); s.Expr != l.Expr || s.Doc != l.Doc {
 					var jb []c15Job
